@@ -90,6 +90,24 @@ def _ip_put(ctx):
             t = strip_sites(T.of(cfg, n, n.ast.iter))
             if t[0] == "sub" and t[2] == ("const", "characteristics") and contains(t[1], lambda s: s[0] == "await"):
                 loop = n
+            elif t[0] == "call" and t[1][0] == "attr" and t[1][2] == "get" and t[2][:1] == (("const", "characteristics"),) and len(t[2]) == 2 \
+                    and contains(t[1][1], lambda s: s[0] == "await"):
+                # `reply.get("characteristics", [])`: a non-empty reply WITHOUT a list (only a request-wide status) then reads as
+                # "no failures" - every readable characteristic of a refused write is announced to the listeners as written
+                loop = n
+
+                def _reply_status(s_):
+                    b_ = s_[1] if s_[0] == "sub" and len(s_) == 3 and s_[2] == ("const", "status") else (
+                        s_[1][1] if s_[0] == "call" and s_[1][0] == "attr" and s_[1][2] == "get" and s_[2][:1] == (("const", "status"),) else None)
+                    return b_ is not None and contains(b_, lambda z: z[0] == "await") and not contains(b_, lambda z: z[0] == "iter")
+
+                handled = any(m_.kind == "test" and contains(strip_sites(T.of(cfg, m_, m_.exprs[0])), _reply_status) for m_ in cfg.nodes)
+                if handled:
+                    continue  # the request-wide status of the reply is looked at separately: not decided here
+                ctx.ck.violated("C13.T1", f"{ctx.fkey(f)}:reply-without-list-is-success",
+                                f"put_characteristics iterates `{n.text()[:70]}`: a write reply that carries no characteristics list (e.g. only a request-wide "
+                                "error status) is taken for \"nothing failed\" and the listeners are told the new values; the reply's list must be indexed (a missing "
+                                "list is an error), not defaulted to empty", ctx.loc(f, n), None, "a missing characteristics list in a write reply is not read as success")
     return f, cfg, loop
 
 
@@ -330,7 +348,9 @@ def _g2(ctx: Context) -> None:
     def stores_in(loop):
         return [n for n in cfg.nodes if n.kind == "stmt" and isinstance(n.ast, ast.Assign) and isinstance(n.ast.targets[0], ast.Subscript)
                 and any(fr[0] == "loop" and fr[1] is loop.ast for fr in n.frames) and not isinstance(n.ast.targets[0].value, ast.Subscript)
-                and _u(n.ast.targets[0].value) not in (entry_loop.ast.target.id if isinstance(entry_loop.ast.target, ast.Name) else "",)]
+                and _u(n.ast.targets[0].value) not in (entry_loop.ast.target.id if isinstance(entry_loop.ast.target, ast.Name) else "",)
+                # (a store into the entry itself under another name - the consumer's variable of an inlined generator loop - is not a store of a result)
+                and not contains(strip_sites(T.of(cfg, n, n.ast.targets[0].value)), lambda s_: isinstance(s_, tuple) and s_[:1] == ("iter",))]
     dst = stores_in(default_loop)
     est = stores_in(entry_loop)
     ok = bool(dst) and bool(est)
@@ -757,3 +777,10 @@ VARIANTS = [
     {"name": "BLE: notifies a constant", "file": _BP, "old": "                        self._callback_listeners({result_key: {\"value\": value}})", "new": "                        self._callback_listeners({result_key: {\"value\": True}})", "expect": "C13.K2"},
 ]
 VARIANTS = [v for v in VARIANTS if v["expect"]]
+
+VARIANTS += [
+    {"name": "write reply: a missing characteristics list is read as an empty one (refused write announced as written)", "file": "aiohomekit/controller/ip/pairing.py",
+     "old": '            for characteristic in response["characteristics"]:',
+     "new": '            for characteristic in response.get("characteristics", []):',
+     "expect": "C13.T1"},
+]
